@@ -494,8 +494,34 @@ Require Import Model.C17_TagCodec.
 
 
 def translate():
-    hx, tm, mt = translate_hex()
-    codec, keys = translate_codec()
-    parts = [HEADER, codec, hx, translate_dict(), 'Import String.   (* string literals below *)', keys, translate_npz(),
-             CLASS_TABLES]
-    return '\n\n'.join(parts) + '\n', tm, mt
+    """(text of Gen/C17Gen.v, class tables, list of (part, error)): the parts are translated independently so that a
+    source shape the translator does not know in one function does not hide what the others say"""
+    errors = []
+
+    def part(name, fn):
+        try:
+            return fn()
+        except TranslateError as e:
+            errors.append((name, str(e)))
+            return None
+    hx = part('io/meshio.py: HEX_MAPPING, to_meshio, from_meshio', translate_hex)
+    cd = part('mesh.py: _encode_cell_data, _decode_cell_data', translate_codec)
+    dc = part('mesh.py: to_dict, from_dict', translate_dict)
+    nz = part('mesh.py: save_npz, load_npz', translate_npz)
+    tm = mt = None
+    parts = [HEADER]
+    if cd:
+        parts.append(cd[0])
+    if hx:
+        parts.append(hx[0])
+        tm, mt = hx[1], hx[2]
+    if dc:
+        parts.append(dc)
+    parts.append('Import String.   (* string literals below *)')
+    if cd:
+        parts.append(cd[1])
+    if nz:
+        parts.append(nz)
+    if hx:
+        parts.append(CLASS_TABLES)
+    return '\n\n'.join(parts) + '\n', tm, mt, errors
